@@ -652,6 +652,8 @@ func (g G) callText(env exprEnv, depth int) string {
 var typeDecls = []string{"string", "number", "bool", "any", "list(string)", "set(number)", "map(any)", "object({a = string, n = number})",
 	"tuple([string, bool])", "list(object({a = optional(string)}))", "object({})", "map(list(string))",
 	// quoted (and empty) attribute names
+	// empty parentheses behind a complex type name (completion offers the inner skeleton there)
+	"object()", "tuple()", "list()", "map( )",
 	`object({ "a" = string })`, `object({"k" = list(number), b = bool})`, `object({ "" = string })`, `map(object({"é" = any}))`}
 
 // exprFor generates expression text for an attribute with constraint c.
